@@ -340,6 +340,77 @@ def lost_after_expired_first_record(ref_files, exp_census, cen, now):
     return extra
 
 
+def sharers_lost_after_count_update_dropped(ref_files, exp_census, cen):
+    """the compacted directory lacks holds of the reference, everything else is equal, and each lost hold joined a key
+    AFTER another holder had raised the key's Count by an update which that holder has since superseded by a later update:
+    compaction keeps only the later one, which now comes after the joiner's LOCK record, so the joiner is refused at replay"""
+    obs = set((x[0], x[1]) for x in cen)
+    extra = [x for x in exp_census if (x[0], x[1]) not in obs]
+    if not extra or len(exp_census) - len(extra) != len(cen) or not census_equal([x for x in exp_census if (x[0], x[1]) in obs], cen):
+        return []
+    raw = []
+    names = (["rewrite.aof"] if "rewrite.aof" in ref_files else []) + \
+        sorted([f for f in ref_files if re.fullmatch(r"append\.aof\.\d+", f)], key=lambda f: int(f.split(".")[2]))
+    for f in names:
+        body = ref_files[f][12:]
+        raw += [body[i:i + 64] for i in range(0, len(body) - 63, 64)]
+    for x in extra:
+        k, l = re.search(r"key=(\w+)", x[0]).group(1), re.search(r"lockid=(\w+)", x[0]).group(1)
+        recs = [r for r in raw if r[37:53].hex() == k]
+        joins = [i for i, r in enumerate(recs) if r[2] == 1 and r[21:37].hex() == l and not r[19] & 0x02]
+        if not joins:
+            return []
+        ok = False
+        for o in set(r[21:37].hex() for r in recs) - {l}:
+            before = [i for i, r in enumerate(recs) if i < joins[-1] and r[21:37].hex() == o and r[2] == 1 and r[19] & 0x02 and int.from_bytes(r[61:63], "little") >= 1]
+            after = [i for i, r in enumerate(recs) if i > joins[-1] and r[21:37].hex() == o and r[2] == 1 and r[19] & 0x02]
+            first = [r for r in recs if r[21:37].hex() == o and r[2] == 1]
+            if before and after and int.from_bytes(first[0][61:63], "little") < int.from_bytes(recs[before[-1]][61:63], "little"):
+                ok = True
+        if not ok:
+            return []
+    return extra
+
+
+def stale_value_update_dropped(ref_files, exp_census, cen):
+    """every key on which the two censuses differ has this history: a live holder's current terms come from an update record
+    with EXPRIED_FLAG_UNLIMITED_EXPRIED_TIME / Expried 0xffff that carries the key's value of that time, and ANOTHER lock id
+    has changed the value since (HasLock: `currentData` differs from the record's data and Count/Rcount are equal => false)"""
+    def by_key(c):
+        res = {}
+        for x in c:
+            res.setdefault(re.search(r"key=(\w+)", x[0]).group(1), []).append((x[0], x[1], x[2], x[3] if not x[2] & 0x40 else 0))
+        return res
+    a, b = by_key(exp_census), by_key(cen)
+    keys = [k for k in set(a) | set(b) if a.get(k) != b.get(k)]
+    if not keys:
+        return []
+    recs = parse_records(ref_files)
+    raw = []
+    names = (["rewrite.aof"] if "rewrite.aof" in ref_files else []) + \
+        sorted([f for f in ref_files if re.fullmatch(r"append\.aof\.\d+", f)], key=lambda f: int(f.split(".")[2]))
+    for f in names:
+        body = ref_files[f][12:]
+        raw += [body[i:i + 64] for i in range(0, len(body) - 63, 64)]
+    for k in keys:
+        ok = False
+        idx = [i for i, r in enumerate(recs) if r[2] == k]
+        for j, i in enumerate(idx):
+            x = raw[i]
+            if not (x[2] == 1 and x[19] & 0x02 and recs[i][5] is not None and int.from_bytes(x[59:61], "little") & 0x4000 and x[57:59] == b"\xff\xff"):
+                continue
+            o = recs[i][3]
+            if any(raw[i2][2] == 1 and raw[i2][19] & 0x02 and recs[i2][3] == o for i2 in idx[j + 1:]):
+                continue                                    # not the holder's last update
+            live = [h for h in a.get(k, []) if "lockid=" + o in h[0] and "count=%d rcount=%d" % (int.from_bytes(x[61:63], "little"), x[63]) in h[0]]
+            later = [i2 for i2 in idx[j + 1:] if recs[i2][3] != o and recs[i2][5] is not None and recs[i2][5] != recs[i][5] and raw[i2][2] == 1]
+            if live and later:
+                ok = True
+        if not ok:
+            return []
+    return sorted(keys)
+
+
 def dir_diff(got, want):
     """first differing files of two `name=hex` listings"""
     a, b = dict(x.split("=", 1) for x in got.split(" ") if "=" in x), dict(x.split("=", 1) for x in want.split(" ") if "=" in x)
@@ -464,6 +535,18 @@ def run(ctx):
                 return ("deadline-kept-by-an-update-changes-when-the-update-that-set-it-is-dropped",
                         "an update with EXPRIED_FLAG_UNLIMITED_EXPRIED_TIME and Expried 0xffff changes Count/Rcount and KEEPS the deadline the hold has; the compaction keeps "
                         "that record (its terms are the current ones) and drops the earlier update that had set the deadline: after a restart the hold %s ends at %d instead of %d" % inh[0])
+            sv = stale_value_update_dropped(ref_files, exp_census, cen)
+            if sv:
+                return ("update-record-with-outdated-value-is-dropped",
+                        "HasLock rejects the update record that carries a holder's CURRENT Count/Rcount when the record is of the `unlimited, Expried 0xffff` kind and the value "
+                        "stored with it is no longer the key's value (another holder of the shared key has set a new one): after compaction + restart the holder has the terms of "
+                        "its older record (key %s: Count falls back, holders that joined since are refused at replay, the value is the old one)" % sv[0])
+            sl = sharers_lost_after_count_update_dropped(ref_files, exp_census, cen)
+            if sl:
+                return ("sharer-lost-when-the-update-that-raised-Count-is-dropped",
+                        "a holder raised the Count of its key by an update, a second lock id then joined the key, the first holder updated again: the compaction keeps only "
+                        "the LAST update record of the first holder (HasLock compares with the current terms), which comes after the joiner's LOCK record in the log; at replay "
+                        "the key is still exclusive when the joiner's record arrives: %s is lost" % sl[0][0])
             lo = lost_after_expired_first_record(ref_files, exp_census, cen, int(time.time()))
             if lo:
                 return ("hold-lost-after-expired-first-record-and-dropped-update",
